@@ -119,7 +119,7 @@ class ExprMixin:
                 v = self.static_val(('global', m.name, name), key=f'global:{m.name}:{name}')
                 sid = smt.static_id(v)
                 self.use_class(tgt)
-                self._add_pc(smt.cls_of(sid) == tgt.cid)
+                self._add_axiom(smt.cls_of(sid) == tgt.cid)
                 self.known_cls[smt.simp(v).get_id()] = tgt
         if v is None:
             fr = Frame(None, m)
